@@ -6,6 +6,7 @@ From VQ Require Import Model.Layout Proofs.LayoutProofs.
 From VQ Require Import Glue.Pin_pat_vq_forward Glue.Pin_pat_vq_split Glue.Pin_pat_vq_decode Glue.Pin_pat_euclid_forward Glue.Pin_pat_cosine_forward Glue.Pin_pat_fsq_forward Glue.Pin_pat_fsq_decode Glue.Pin_pat_lfq_forward Glue.Pin_pat_lfq_decode Glue.Pin_pat_rvq_decode Glue.Pin_pat_simvq_forward.
 Import ListNotations.
 
+(* implicit *)
 Theorem C10_image_pointwise :
   forall (A B : Type) (W : nat) (f : tvec A -> tvec B) (X : nat -> nat -> nat -> nat -> A)
          (b c h w : nat),
@@ -13,12 +14,14 @@ Theorem C10_image_pointwise :
 Proof. exact (@image_pointwise). Qed.
 Print Assumptions C10_image_pointwise.
 
+(* implicit *)
 Theorem C10_image_indices_pointwise :
   forall (A I : Type) (W : nat) (g : tvec A -> I) (X : nat -> nat -> nat -> nat -> A) (b h w : nat),
        w < W -> @img_idx_out I W (@tok_map_idx A I g (@img_in A W X)) b h w = g (fun c' : nat => X b c' h w).
 Proof. exact (@image_indices_pointwise). Qed.
 Print Assumptions C10_image_indices_pointwise.
 
+(* implicit *)
 Theorem C10_image_is_flattened_sequence :
   forall (A B : Type) (W : nat) (f : tvec A -> tvec B) (X : nat -> nat -> nat -> nat -> A) (b t c : nat),
        0 < W ->
@@ -27,12 +30,14 @@ Theorem C10_image_is_flattened_sequence :
 Proof. exact (@image_is_flattened_sequence). Qed.
 Print Assumptions C10_image_is_flattened_sequence.
 
+(* implicit *)
 Theorem C10_channel_first_pointwise :
   forall (A B : Type) (f : tvec A -> tvec B) (X : nat -> nat -> nat -> A) (b d n : nat),
        @cfirst_out B (@tok_map A B f (@cfirst_in A X)) b d n = f (fun d' : nat => X b d' n) d.
 Proof. exact (@cfirst_pointwise). Qed.
 Print Assumptions C10_channel_first_pointwise.
 
+(* implicit *)
 Theorem C10_heads_separate_pointwise :
   forall (A B : Type) (D : nat) (f : nat -> tvec A -> tvec B) (X : nat -> nat -> nat -> A)
          (b n h d : nat),
@@ -42,6 +47,7 @@ Theorem C10_heads_separate_pointwise :
 Proof. exact (@heads_sep_pointwise). Qed.
 Print Assumptions C10_heads_separate_pointwise.
 
+(* implicit *)
 Theorem C10_heads_separate_indices :
   forall (A I : Type) (D : nat) (g : nat -> tvec A -> I) (X : nat -> nat -> nat -> A) (b n h : nat),
        @heads_sep_idx I (@head_map_idx A I g (@heads_sep_in A D X)) b n h =
@@ -49,6 +55,7 @@ Theorem C10_heads_separate_indices :
 Proof. exact (@heads_sep_indices). Qed.
 Print Assumptions C10_heads_separate_indices.
 
+(* implicit *)
 Theorem C10_heads_shared_pointwise :
   forall (A B : Type) (H D : nat) (f : tvec A -> tvec B) (X : nat -> nat -> nat -> A) (b n h d : nat),
        h < H ->
@@ -58,6 +65,7 @@ Theorem C10_heads_shared_pointwise :
 Proof. exact (@heads_shared_pointwise). Qed.
 Print Assumptions C10_heads_shared_pointwise.
 
+(* implicit *)
 Theorem C10_heads_shared_indices :
   forall (A I : Type) (H D : nat) (g : tvec A -> I) (X : nat -> nat -> nat -> A) (b n h : nat),
        h < H ->
@@ -66,6 +74,7 @@ Theorem C10_heads_shared_indices :
 Proof. exact (@heads_shared_indices). Qed.
 Print Assumptions C10_heads_shared_indices.
 
+(* implicit *)
 Theorem C10_multiple_codebooks_pointwise :
   forall (A B : Type) (D : nat) (f : nat -> tvec A -> tvec B) (X : nat -> nat -> nat -> A)
          (b n c d : nat),
@@ -75,6 +84,7 @@ Theorem C10_multiple_codebooks_pointwise :
 Proof. exact (@codebooks_pointwise). Qed.
 Print Assumptions C10_multiple_codebooks_pointwise.
 
+(* implicit *)
 Theorem C10_permute_split_concat_rebatch :
   forall (A B : Type) (f : tvec A -> tvec B) (T : nat -> nat -> nat -> A) (p : nat -> nat -> nat * nat)
          (b n d : nat),
@@ -83,6 +93,7 @@ Theorem C10_permute_split_concat_rebatch :
 Proof. exact (@tok_map_reindex). Qed.
 Print Assumptions C10_permute_split_concat_rebatch.
 
+(* implicit *)
 Theorem C10_indices_permute_split_concat_rebatch :
   forall (A I : Type) (g : tvec A -> I) (T : nat -> nat -> nat -> A) (p : nat -> nat -> nat * nat)
          (b n : nat),
@@ -91,12 +102,14 @@ Theorem C10_indices_permute_split_concat_rebatch :
 Proof. exact (@tok_map_idx_reindex). Qed.
 Print Assumptions C10_indices_permute_split_concat_rebatch.
 
+(* implicit *)
 Theorem C10_single_vector_vs_batch :
   forall (A B : Type) (f : tvec A -> tvec B) (T : nat -> nat -> nat -> A) (b n d : nat),
        @tok_map A B f (fun _ _ d' : nat => T b n d') 0 0 d = @tok_map A B f T b n d.
 Proof. exact (@single_vs_batch). Qed.
 Print Assumptions C10_single_vector_vs_batch.
 
+(* implicit *)
 Theorem C10_result_depends_on_own_vector_only :
   forall (A B : Type) (f : tvec A -> tvec B) (T T' : nat -> nat -> nat -> A) (b n d : nat),
        (forall d' : nat, T b n d' = T' b n d') ->
@@ -116,96 +129,56 @@ Proof. exact (@group_merge). Qed.
 Print Assumptions C10_grouped_axes_merge.
 
 Theorem C10_patterns_vq_forward :
-  pat_vq_forward.pat_vq_forward =
-       [("rearrange", "b d -> b 1 d"); ("rearrange", "b c h w -> b (h w) c");
-        ("rearrange", "b d n -> b n d"); ("repeat", "b n -> c (b h) n"); ("rearrange", "$dist_einops_eq");
-        ("rearrange", "h b n -> b n h"); ("rearrange", "1 (b h) n -> b n h");
-        ("rearrange", "b (h w) ... -> b h w ..."); ("rearrange", "b 1 ... -> b ...");
-        ("reduce", "... n l -> n l"); ("repeat", "b n -> b n h"); ("repeat", "b n -> c (b h) n");
-        ("rearrange", "h b n d -> b n (h d)"); ("rearrange", "1 (b h) n d -> b n (h d)");
-        ("rearrange", "b n d -> b d n"); ("rearrange", "b (h w) c -> b c h w");
-        ("rearrange", "b 1 d -> b d"); ("einx.where", "b n, b n d, b n d -> b n d");
-        ("einx.where", "b n, b n ..., -> b n ...")].
+  pat_vq_forward.pat_vq_forward = pinned_pat_vq_forward.
 Proof. exact (@pin_pat_vq_forward). Qed.
 Print Assumptions C10_patterns_vq_forward.
 
 Theorem C10_patterns_vq_split :
-  pat_vq_split.pat_vq_split = [("rearrange", "f'b n (h d) -> {ein_rhs_eq}'")].
+  pat_vq_split.pat_vq_split = pinned_pat_vq_split.
 Proof. exact (@pin_pat_vq_split). Qed.
 Print Assumptions C10_patterns_vq_split.
 
 Theorem C10_patterns_vq_decode :
-  pat_vq_decode.pat_vq_decode =
-       [("rearrange", "... h d -> ... (h d)"); ("pack_one", "b * h"); ("rearrange", "b n h -> b h n");
-        ("repeat", "b h n -> b h n d"); ("repeat", "h n d -> b h n d");
-        ("rearrange", "b h n d -> b n (h d)"); ("unpack_one", "b * d"); ("rearrange", "b ... d -> b d ...")].
+  pat_vq_decode.pat_vq_decode = pinned_pat_vq_decode.
 Proof. exact (@pin_pat_vq_decode). Qed.
 Print Assumptions C10_patterns_vq_decode.
 
 Theorem C10_patterns_euclid :
-  pat_euclid_forward.pat_euclid_forward =
-       [("rearrange", "... -> 1 ..."); ("pack_one", "h * d"); ("repeat", "b n -> c (b h n)");
-        ("rearrange", "h b n c d -> h (b n) c d"); ("rearrange", "... d -> ... 1 d"); (
-        "unpack_one", "h *"); ("unpack_one", "h * c d"); ("unpack_one", "h * c");
-        ("einsum", "h b n c, h b n c d -> h b n d"); ("einsum", "h b n c, h c d -> h b n d");
-        ("einx.get_at", "h b n [c] d, h b n -> h b n d"); ("einx.get_at", "h [c] d, h b n -> h b n d");
-        ("einsum", "h n d, h n c -> h c d"); ("rearrange", "1 ... -> ..."); ("unpack_one", "h * d")].
+  pat_euclid_forward.pat_euclid_forward = pinned_pat_euclid_forward.
 Proof. exact (@pin_pat_euclid_forward). Qed.
 Print Assumptions C10_patterns_euclid.
 
 Theorem C10_patterns_cosine :
-  pat_cosine_forward.pat_cosine_forward =
-       [("rearrange", "... -> 1 ..."); ("pack_one", "h * d"); ("repeat", "b n -> c (b h n)");
-        ("rearrange", "h b n c d -> h (b n) c d"); ("einsum", "h n d, h n c d -> h n c");
-        ("einsum", "h n d, h c d -> h n c"); ("unpack_one", "h *"); ("unpack_one", "h * c d");
-        ("unpack_one", "h * c"); ("einsum", "h b n c, h b n c d -> h b n d");
-        ("einsum", "h b n c, h c d -> h b n d"); ("einx.get_at", "h b n [c] d, h b n -> h b n d");
-        ("einx.get_at", "h [c] d, h b n -> h b n d"); ("einsum", "h n d, h n c -> h c d");
-        ("rearrange", "1 ... -> ..."); ("unpack_one", "h * d")].
+  pat_cosine_forward.pat_cosine_forward = pinned_pat_cosine_forward.
 Proof. exact (@pin_pat_cosine_forward). Qed.
 Print Assumptions C10_patterns_cosine.
 
 Theorem C10_patterns_fsq :
-  pat_fsq_forward.pat_fsq_forward =
-       [("rearrange", "b d ... -> b ... d"); ("pack_one", "b * d"); ("rearrange", "b n (c d) -> b n c d");
-        ("rearrange", "b n c d -> b n (c d)"); ("unpack_one", "b * d"); ("rearrange", "b ... d -> b d ...")].
+  pat_fsq_forward.pat_fsq_forward = pinned_pat_fsq_forward.
 Proof. exact (@pin_pat_fsq_forward). Qed.
 Print Assumptions C10_patterns_fsq.
 
 Theorem C10_patterns_fsq_decode :
-  pat_fsq_decode.pat_fsq_decode =
-       [("rearrange", "... c d -> ... (c d)"); ("rearrange", "b ... d -> b d ...")].
+  pat_fsq_decode.pat_fsq_decode = pinned_pat_fsq_decode.
 Proof. exact (@pin_pat_fsq_decode). Qed.
 Print Assumptions C10_patterns_fsq_decode.
 
 Theorem C10_patterns_lfq :
-  pat_lfq_forward.pat_lfq_forward =
-       [("rearrange", "b d ... -> b ... d"); ("pack_one", "b * d"); ("rearrange", "b n (c d) -> b n c d");
-        ("reduce", "b n c d -> b n c"); ("rearrange", "b n ... -> (b n) ...");
-        ("einsum", "... i d, j d -> ... i j"); ("einsum", "... i d, j d -> ... i j");
-        ("reduce", "... c d -> c d"); ("rearrange", "b n c d -> b n (c d)"); ("unpack_one", "b * d");
-        ("rearrange", "b ... d -> b d ..."); ("unpack_one", "b * c"); ("rearrange", "... 1 -> ...")].
+  pat_lfq_forward.pat_lfq_forward = pinned_pat_lfq_forward.
 Proof. exact (@pin_pat_lfq_forward). Qed.
 Print Assumptions C10_patterns_lfq.
 
 Theorem C10_patterns_lfq_decode :
-  pat_lfq_decode.pat_lfq_decode =
-       [("rearrange", "... -> ... 1"); ("rearrange", "... c d -> ... (c d)");
-        ("rearrange", "b ... d -> b d ...")].
+  pat_lfq_decode.pat_lfq_decode = pinned_pat_lfq_decode.
 Proof. exact (@pin_pat_lfq_decode). Qed.
 Print Assumptions C10_patterns_lfq_decode.
 
 Theorem C10_patterns_rvq_decode :
-  pat_rvq_decode.pat_rvq_decode =
-       [("pack", "b * q"); ("get_at", "q [c] d, b n q -> q b n d"); ("get_at", "b n [c] d, b n -> b n d");
-        ("get_at", "[c] d, b n -> b n d"); ("rearrange", "b n q -> q b n 1"); ("unpack", "q b * d")].
+  pat_rvq_decode.pat_rvq_decode = pinned_pat_rvq_decode.
 Proof. exact (@pin_pat_rvq_decode). Qed.
 Print Assumptions C10_patterns_rvq_decode.
 
 Theorem C10_patterns_simvq :
-  pat_simvq_forward.pat_simvq_forward =
-       [("rearrange", "b d ... -> b ... d"); ("pack_one", "b * d"); ("get_at", "[c] d, b n -> b n d");
-        ("inverse_pack", "b *"); ("rearrange", "b ... d-> b d ...")].
+  pat_simvq_forward.pat_simvq_forward = pinned_pat_simvq_forward.
 Proof. exact (@pin_pat_simvq_forward). Qed.
 Print Assumptions C10_patterns_simvq.
-
